@@ -36,6 +36,8 @@ pub struct C15 {
     pub touch: bool,
     /// the source overwrites the unfilled part of the buffer it is given
     pub scribble: bool,
+    /// once the caller lane is exhausted, drop-and-reissue on every further Pending (instead of polling on)
+    pub late_cancel: bool,
     pub src: Vec<Step>,
     pub caller: Vec<Decide>,
 }
@@ -138,8 +140,11 @@ impl<'s> FamVisitor for Runner<'s> {
         let later_max = |from: usize| payloads.iter().skip(from + 1).map(|p| p.len()).max().unwrap_or(0) as u32;
         let mut at_boundary = true; // no read has consumed bytes of a frame that was not returned yet
         let mut rewrapped = false;
-        let mut caller = Caller::new(s.caller.clone());
-        let (_cw, waker) = new_waker();
+        let mut caller = Caller::with_default(s.caller.clone(), if s.late_cancel { Decide::Cancel } else { Decide::Poll });
+        if s.late_cancel {
+            self.obs.borrow_mut().fault(fk::late_cancel);
+        }
+        let (cw, waker) = new_waker();
         let mut cx = Context::from_waker(&waker);
 
         // ---- drive
@@ -180,9 +185,13 @@ impl<'s> FamVisitor for Runner<'s> {
                         fail!("progress", "more than {budget} polls without finishing; {got} of {} values returned", expected.len());
                     }
                     self.obs.borrow_mut().event(ev::POLL, 0);
+                    let wakes_before = cw.wakes.load(std::sync::atomic::Ordering::Relaxed);
                     match fut.as_mut().poll(&mut cx) {
                         Poll::Ready(r) => break Some(r),
                         Poll::Pending => {
+                            if cw.wakes.load(std::sync::atomic::Ordering::Relaxed) == wakes_before {
+                                fail!("progress", "read returned Pending without any wake-up having been arranged during that poll: a real executor would never poll it again");
+                            }
                             if caller.next() == Decide::Cancel {
                                 break None;
                             }
@@ -376,6 +385,7 @@ impl Scenario for C15 {
             .set("knob_mid", self.knob_mid)
             .set("touch", self.touch)
             .set("scribble", self.scribble)
+            .set("late_cancel", self.late_cancel)
             .set("src", lane_to_json(&self.src))
             .set("caller", decides_to_json(&self.caller))
     }
@@ -392,6 +402,7 @@ impl Scenario for C15 {
             knob_mid: j.get("knob_mid").and_then(|c| c.as_u64()).map(|c| c as u32),
             touch: j.get("touch").and_then(|c| c.as_bool()).unwrap_or(false),
             scribble: j.get("scribble").and_then(|c| c.as_bool()).unwrap_or(false),
+            late_cancel: j.get("late_cancel").and_then(|c| c.as_bool()).unwrap_or(false),
             src: lane_from_json(j.get("src"))?,
             caller: decides_from_json(j.get("caller"))?,
         })
@@ -454,6 +465,9 @@ impl Scenario for C15 {
         if self.scribble {
             out.push(C15 { scribble: false, ..self.clone() });
         }
+        if self.late_cancel {
+            out.push(C15 { late_cancel: false, ..self.clone() });
+        }
         if self.family != Ty::Str && self.family != Ty::U64 {
             // simpler payload type, same shapes of frames
             for t in [Ty::U64, Ty::Str] {
@@ -507,7 +521,7 @@ fn stream_len(values: &[ValSpec]) -> usize {
 }
 
 fn base(family: Ty, values: Vec<ValSpec>) -> C15 {
-    C15 { family, values, cut: None, init_buf: 0, max_len_mode: 0, use_ctx: false, rewrap_at: None, knob_mid: None, touch: false, scribble: false, src: vec![], caller: vec![] }
+    C15 { family, values, cut: None, init_buf: 0, max_len_mode: 0, use_ctx: false, rewrap_at: None, knob_mid: None, touch: false, scribble: false, late_cancel: false, src: vec![], caller: vec![] }
 }
 
 fn generate_single(r: &mut Rng, tier: Tier) -> C15 {
@@ -597,6 +611,7 @@ fn generate_single(r: &mut Rng, tier: Tier) -> C15 {
         knob_mid: if r.chance(1, 4) { Some(r.below(3) as u32) } else { None },
         touch: r.chance(1, 3),
         scribble: r.chance(1, 3),
+        late_cancel: r.chance(1, 3),
         src,
         caller,
     }
